@@ -38,7 +38,7 @@ def toProtoField (syn : Nat) (f : FieldD) : FieldP :=
       | some j => some (if f.isExtension then jsonCamelCase f.name else j)
       | none => none
     proto3Optional := syn == 3 && hasOptionalKeyword edition f
-    defaultOk := if f.hasDefault then some true else none
+    defaultOk := if f.hasDefault then f.p.defaultOk else none
     defaultLit := if f.hasDefault then f.p.defaultLit else []
     packed := f.p.packed
     lazy := f.p.lazy
